@@ -147,6 +147,16 @@ func (m *AppPlacementManager) PlaceApplication(app *objects.Application) error {
 				zap.String("application", app.ApplicationID))
 			break
 		}
+		// The recovery queue is reserved for forced placement: a rule that resolves to it for any
+		// other application has not matched, try the next rule.
+		if common.IsRecoveryQueue(queueName) {
+			log.Log(log.SchedApplication).Debug("Rule returned the recovery queue for a non forced application",
+				zap.String("ruleName", checkRule.getName()),
+				zap.String("application", app.ApplicationID))
+			// reset the queue name for the last rule in the chain
+			queueName = ""
+			continue
+		}
 		// queueName returned make sure ACL allows access and set the queueName in the app
 		queue := m.queueFn(queueName)
 		// walk up the tree if the queue does not exist
